@@ -288,4 +288,67 @@ theorem lanSend_recovers_v3 {p : Params} {rx : Reactions} {s : S} (frame : Bytes
   · rw [htr6, hev5, hev4, hev1, htr0]; simp
   · simp [c1]
 
+
+/-- **recovery on V3 without a reconnect**: the connection is alive but the protocol object is not
+    authenticated (a handshake failed on it, or its key is older than the authentication lifetime); on a
+    quiet network with an empty reassembly buffer the next exchange handshakes on the same connection
+    and returns the device's response -/
+theorem lanSend_reauth_same_connection {p : Params} {rx : Reactions} {s : S} {c : Conn} (frame : Bytes) (n : Nat)
+    (tok key : Bytes) (hc : s.l.conn = some c) (hcl : c.closing = false) (hv : c.core.v3 = true)
+    (hal : connAlive s = true) (hna : authenticated s = false) (hquiet : s.w.pending = [])
+    (hnc : s.w.cancelAt = none) (hbuf : c.buffer = [])
+    (htok : s.l.token = some tok) (hkey : s.l.key = some key)
+    (htok' : tok.isEmpty = false ∧ tok.length < 65536) (hkey' : key.isEmpty = false)
+    (d0 : Nat) (b0 reply payload lk : Bytes) (hrx0 : rx c.core.cid c.core.nWrites = [(d0, .data b0)])
+    (hd0 : d0 ≤ p.readTimeout) (hparse0 : parseLoop b0 = ([reply], [])) (hproc : processPacket none reply = .ok payload)
+    (hlk : getLocalKey key payload = .ok lk)
+    (d1 : Nat) (b1 pkt f : Bytes) (hrx1 : rx c.core.cid (c.core.nWrites + 1) = [(d1, .data b1)]) (hd1 : d1 ≤ p.readTimeout)
+    (hparse1 : parseLoop b1 = ([pkt], [])) (hdec : decodeWith true (some lk) pkt = .ok f) :
+    ∃ s', lanSend p rx s frame (n + 1) = (.ok [f], s') ∧ nData (evsOf s') = nData (evsOf s) + 1 ∧
+      ∃ tr, evsOf s' = evsOf s ++ tr ∧ .accept c.core.cid lk ∈ tr := by
+  have hv1 : isV3 s = true := by simp [isV3, hc, hv]
+  obtain ⟨s4, c4, hpa, hr4, hcore4, hbuf4, hke4, hev4⟩ := protoAuthenticate_answered (p := p) (rx := rx) (s := s) (c := c)
+    tok key hc hcl hv hquiet hnc hbuf htok' hkey' d0 b0 reply payload lk hrx0 hd0 hparse0 hproc hlk
+  have hauth4 : authenticated s4 = true := by
+    simp [authenticated, hr4.conn, hcore4, hke4]
+  have hloop : authLoop p rx (some tok) (some key) Generated.lanRetries s = (.ok (), s4) := by
+    show authLoop p rx (some tok) (some key) (2 + 1) s = _
+    rw [authLoop, hpa]
+  let s5 := pump (storeCreds s4 (some tok) (some key)) (s4.w.now + p.authSleep)
+  have hfin : finishAuth p s4 (some tok) (some key) = (.ok (), s5) := by
+    unfold finishAuth; simp [hauth4, s5]
+  have hs5 : s5 = setNow (storeCreds s4 (some tok) (some key)) (s4.w.now + p.authSleep) :=
+    pump_quiet _ (by simpa [storeCreds] using hr4.quiet)
+  have hr5 : Ready s5 c4 := by
+    rw [hs5]
+    exact ⟨by simpa [setNow, storeCreds] using hr4.conn, hr4.open_, hr4.queue, by simpa [setNow, storeCreds] using hr4.quiet, hr4.key,
+      by simpa [setNow, storeCreds] using hr4.unarmed⟩
+  have hev5 : evsOf s5 = evsOf s4 := by rw [hs5]; rfl
+  have hla : lanAuthenticate p rx s none none Generated.lanRetries = (.ok (), s5) := by
+    unfold lanAuthenticate
+    rw [if_neg (by simp [hal, hv1])]
+    simp only [pickCred_none, htok, hkey]
+    rw [hloop]
+    simp only
+    exact hfin
+  have hea : ensureAuth p rx s = (.ok (), s5) := by
+    unfold ensureAuth
+    rw [if_pos (by simp [hv1, hna])]
+    exact hla
+  obtain ⟨s6, hex, hn6⟩ := exchange_answered (p := p) (rx := rx) (s := s5) (c := c4) frame n hr5 d1 b1 pkt f
+    (by simpa [hcore4, bump] using hrx1) hd1
+    (by simp [segQueue, hcore4, bump, hv, hbuf4, hparse1])
+    (by simpa [hcore4, bump, hv] using hdec)
+  obtain ⟨tr6, htr6⟩ : ∃ tr, evsOf s6 = evsOf s5 ++ tr := by
+    obtain ⟨tr, ht, _⟩ := exchange_tr hex
+    exact ⟨tr, ht.evs⟩
+  refine ⟨s6, ?_, ?_, [.forget c.core.cid, .wrHS c.core.cid c.core.packetId tok, .accept c.core.cid lk] ++ tr6, ?_, by simp⟩
+  · unfold lanSend
+    rw [if_neg (by simp [hal])]
+    rw [hea]; simp only
+    exact hex
+  · rw [hn6, hev5, hev4, nData_append]
+    simp [nData, isData]
+  · rw [htr6, hev5, hev4]; simp
+
 end Msmart.Lemmas.Sess
